@@ -94,7 +94,14 @@ def run_threads(workloads, schedule):
     if _tso is None or sys.stdout is not _tso:     # install before any thread runs
         _tso = _ThreadStdout(sys.stdout)
         sys.stdout = _tso
-    ths = [threading.Thread(target=runner, args=(tid, fn)) for tid, fn in workloads.items()]
+    # the starting thread has itself used the library, and every worker runs in a COPY of its context
+    # (contextvars.copy_context().run, as asyncio.to_thread / executors do): still nothing may be shared
+    import contextvars
+    from jaxtyping import jaxtyped as _jt
+    with _jt("context"):
+        pass
+    ctxs = {tid: contextvars.copy_context() for tid in workloads}
+    ths = [threading.Thread(target=ctxs[tid].run, args=(runner, tid, fn)) for tid, fn in workloads.items()]
     for t in ths:
         t.start()
     for t in ths:
